@@ -437,6 +437,8 @@ func (w *World) Exec(op Op) *Event {
 		return w.opRestart(op)
 	case "sync":
 		return w.emit("sync", nil, nil)
+	case "malformed":
+		return w.opMalformed(op)
 	}
 	panic("unknown op " + op.Op)
 }
